@@ -180,8 +180,10 @@ def main(argv=None):
     replay_path = None
     if new_keys:
         os.makedirs(os.path.join(REPLAY_DIR, prop), exist_ok=True)
+        written = set()
         for v in m["violations"]:
-            if v["key"] in new_keys:
+            if v["key"] in new_keys and v["key"] not in written and len(written) < 12:
+                written.add(v["key"])
                 p = os.path.join(REPLAY_DIR, prop, case_hash([v["key"], v["case"]]) + ".json")
                 with open(p, "w") as f:
                     json.dump({"property": prop, "key": v["key"], "detail": v["detail"],
